@@ -385,8 +385,10 @@ type fetchWorld struct {
 	setFault bool
 	gets     int
 	sets     int
-	contacts []string
-	cancelAt int
+	// which error value a failing write returns (see worldCache.Set)
+	setErrKind int
+	contacts   []string
+	cancelAt   int
 	// the context is cancelled when the body of the k-th response has been delivered completely: that request succeeds, the
 	// context is done before the next one is made
 	cancelAfter int
@@ -512,6 +514,16 @@ func (c worldCache) Set(ctx context.Context, u string, b *corecrl.Bundle) error 
 	defer c.w.mu.Unlock()
 	c.w.sets++
 	if c.w.setFault {
+		// a failed write is a failed write whatever error value reports it: an ordinary one, the package's own "cache miss"
+		// (a replace-only store passing on its lookup), one that wraps it, the context's
+		switch c.w.setErrKind {
+		case 1:
+			return corecrl.ErrCacheMiss
+		case 2:
+			return fmt.Errorf("replace %q: %w", u, corecrl.ErrCacheMiss)
+		case 3:
+			return context.Canceled
+		}
 		return errCacheFault
 	}
 	c.w.cache[u] = b
@@ -635,7 +647,7 @@ func runFetchHistory(r *Runner, pool *crlPool, cfg fetchCfg, init func(w *fetchW
 	if fetchHung.Load() {
 		return
 	}
-	w := &fetchWorld{pool: pool, server: map[string]srvAns{}, cache: map[string]*corecrl.Bundle{}, lengthMode: idx % 3}
+	w := &fetchWorld{pool: pool, server: map[string]srvAns{}, cache: map[string]*corecrl.Bundle{}, lengthMode: idx % 3, setErrKind: (idx / 3) % 4}
 	if init != nil {
 		init(w)
 	}
@@ -753,7 +765,8 @@ func runFetchHistory(r *Runner, pool *crlPool, cfg fetchCfg, init func(w *fetchW
 			if hung {
 				r.Submit(&Case{ID: fmt.Sprintf("%s-%d.%d", label, idx, step), K: "fetch", Class: cfg.String() + "/" + label, local: true,
 					localClause: "fetch_does_not_return_once_the_transport_has_answered", In: in, Impl: map[string]any{"outcome": "hang"},
-					Replay: map[string]any{"config": cfg.String(), "history": append([]string{}, names...), "url": op.url}})
+					Replay: map[string]any{"config": cfg.String(), "history": append([]string{}, names...), "url": op.url,
+						"a_failing_cache_write_returns": []string{"an ordinary error", "crl.ErrCacheMiss", "an error wrapping crl.ErrCacheMiss", "context.Canceled"}[w.setErrKind]}})
 				return
 			}
 			if _, p := impl["panic"]; p {
@@ -782,7 +795,8 @@ func runFetchHistory(r *Runner, pool *crlPool, cfg fetchCfg, init func(w *fetchW
 			impl["sets"] = w.sets
 			impl["cache_after"] = w.cacheIDs()
 			c := &Case{ID: fmt.Sprintf("%s-%d.%d", label, idx, step), K: "fetch", In: in, Impl: impl, Class: cfg.String() + "/" + label,
-				Replay: map[string]any{"config": cfg.String(), "history": append([]string{}, names...), "url": op.url}}
+				Replay: map[string]any{"config": cfg.String(), "history": append([]string{}, names...), "url": op.url,
+					"a_failing_cache_write_returns": []string{"an ordinary error", "crl.ErrCacheMiss", "an error wrapping crl.ErrCacheMiss", "context.Canceled"}[w.setErrKind]}}
 			c.Dist = map[string]string{"config": cfg.String(), "history-length": fmt.Sprint(len(ops)), "position": fmt.Sprint(step)}
 			r.Submit(c)
 		}
